@@ -274,6 +274,7 @@ func (d *SchemaDesc) build(r *hx.Rand) (*built, error) {
 				return nil, err
 			}
 			out[f.Name] = &schema.FieldDefinition{Type: t, Arguments: args, RequiredFeatures: featureSet(f.Features),
+				Cost:    costFunctionFor(f.Name),
 				Resolve: func(schema.FieldContext) (interface{}, error) { return nil, nil }}
 		}
 		return out, nil
